@@ -101,19 +101,16 @@ def ifft(data, shift=True):
     """
     data_np = data.values if isinstance(data, xr.DataArray) else data
     if data_np.ndim == 1:
+        if shift:
+            data_np = np.fft.ifftshift(data_np)
         res = np.fft.ifft(data_np)
-        if shift:
-            res = np.fft.fftshift(data_np)
     else:
+        axes = [data.dims.index('m'), data.dims.index('n')]
         if shift:
-            shifted = np.fft.fftshift(
-                data_np,
-                axes=[data.dims.index('m'), data.dims.index('n')])
-            res = np.fft.ifft2(
-                shifted,
-                axes=[data.dims.index('m'), data.dims.index('n')])
-        else:
-            res = np.fft.ifft2(data_np)
+            # undo the fftshift done by fft; for odd sizes ifftshift is
+            # not the same as fftshift
+            data_np = np.fft.ifftshift(data_np, axes=axes)
+        res = np.fft.ifft2(data_np, axes=axes)
 
     if isinstance(data, xr.DataArray):
         res = xr.DataArray(res, **transform_metadata(data, True))
